@@ -39,7 +39,9 @@ def ENCODED():
 
     return [__import__('ethosu.vela.graph_optimiser_util', fromlist=['x']).check_format_restrictions, h2n.modify_tile_addresses_for_padding, sch.Scheduler.propose_weight_buffering, h2n.create_weights, g.generate_weights, g.generate_biases, u.get_strides, u.get_address, u.get_address_range, u.get_address_ranges, g.check_mem_limits, t.Tensor.addresses_for_rolling_buffer,
             t.Tensor.address_for_coordinate, t.Tensor.get_strides, t.Tensor.get_augmented_coord, __import__('ethosu.vela.graph_optimiser_util', fromlist=['x'])._avoid_nhcwb16_for_shapes, h2n.get_region, h2n.get_mem_limits_for_regions,
-            af.ArchitectureFeatures.mem_type_size, af.ArchitectureFeatures.is_spilling_enabled]
+            af.ArchitectureFeatures.mem_type_size, af.ArchitectureFeatures.is_spilling_enabled,
+            __import__("ethosu.vela.tflite_graph_optimiser", fromlist=["x"]).convert_resize_to_upscale_and_average_pool,
+            __import__("ethosu.vela.tflite_graph_optimiser", fromlist=["x"]).convert_resizenn_ac_to_depthwise_conv]
 
 
 def footprint(V, layout, width, depth, elem):
